@@ -55,7 +55,9 @@ func seqProfile(prop string, g *Gen, cfg *Config, rng *SplitMix) (steps int) {
 		g.W["new_epic"] = 8
 		g.W["set"] = 10
 		g.BadBias = 15
+		g.AimPct = 12
 	case "C08", "C15":
+		g.AimPct = 10
 		g.W["sequence"] = 25
 		g.W["new_epic"] = 9
 		g.W["plan"] = 6
@@ -77,6 +79,7 @@ func seqProfile(prop string, g *Gen, cfg *Config, rng *SplitMix) (steps int) {
 		g.RawPct = 15
 		g.BadBias = 45
 		g.W["sequence"] = 14
+		g.AimPct = 10
 	case "C11":
 		g.RawPct = 25
 		g.W["plan"] = 30
@@ -168,7 +171,7 @@ func runSeqGenerated(bin, prop string, seed uint64) *RunReport {
 			}
 		}
 	}
-	if (prop == "C15" || prop == "C08") && rng.Chance(2, 3) {
+	if (prop == "C15" || prop == "C08") && rng.Chance(2, 3) || prop == "C10" && rng.Chance(1, 3) {
 		steps := g.twoLevelPrelude()
 		if rng.Chance(1, 3) {
 			steps = g.cycleMotif(len(r.M.Order))
@@ -179,8 +182,18 @@ func runSeqGenerated(bin, prop string, seed uint64) *RunReport {
 		}
 	}
 	mergedCycle := false
+	tornAt := -1
+	if prop == "C08" && rng.Chance(1, 4) {
+		// a claim whose append was torn after its first line: the task is todo
+		// and has a claimant (a combination no command produces, within the
+		// property's quantifier all the same)
+		tornAt = rng.Intn(n)
+	}
 	for i := 0; i < n; i++ {
 		st := g.Next(r.M)
+		if i == tornAt {
+			st = Step{Disk: &DiskOp{Kind: "tail_partial_batch"}}
+		}
 		if prop == "C09" && len(r.M.Pruned) > 0 && rng.Chance(1, 8) {
 			st = Step{Disk: &DiskOp{Kind: "merge_pruned", N: rng.Intn(64), Pos: rng.Intn(1 << 20)}}
 		}
@@ -381,7 +394,7 @@ func planFor(prop string) *PropPlan {
 				Run:    func(bin string, seed uint64) *RunReport { return runConcSample(bin, prop, seed, thoroughTier) },
 				Replay: ReplayConc})
 		}
-		if prop == "C07" {
+		if prop == "C07" || prop == "C16" {
 			p.Modes = append(p.Modes, Mode{Name: "conc", Quick: 16, Deep: 400,
 				Run:    func(bin string, seed uint64) *RunReport { return runConcSample(bin, prop, seed, thoroughTier) },
 				Replay: ReplayConc})
